@@ -118,6 +118,12 @@ func IteInt(c bool, a, b int) int {
 	}
 	return b
 }
+func IteU8(c bool, a, b uint8) uint8 {
+	if c {
+		return a
+	}
+	return b
+}
 func IteU32(c bool, a, b uint32) uint32 {
 	if c {
 		return a
